@@ -28,7 +28,7 @@ T = {
    "Byte-for-byte output equality with in-memory replacement for every schedule/capacity; the closure variant must be handed exactly the matched bytes and absolute offsets; writers accepting 1, 2 or all bytes per call.",
    "as C07","3, 7"),
  "C09": (E1,"model_checking","explicit-state exploration of the closed product from the anchored start state (NFAs, DFA Anchored/Both) against the reference restricted to occurrences at the start; anchored find/iterator/stepwise-overlapping replay",
-   "Anchored behaviour decided for inputs of every length at table level (full-length matches exactly the anchored occurrences, never dead while a pattern can still match) and bound to the real anchored search, iterator (adjacent chain, stop at first gap) and stepwise overlapping search by replay over all short haystacks x span starts.","as C01","2, 7"),
+   "Anchored behaviour decided for inputs of every length at table level (full-length matches exactly the anchored occurrences, never dead while a pattern can still match) and bound to the real anchored search, iterator (adjacent chain, stop at first gap) and stepwise overlapping search by replay over all short haystacks x span starts; the anchored flag survives every way and order of stating flags and span through Input (haystacks 0..5 x every span).","as C01","2, 7"),
  "C10": (E3,"exploration","bounded-exhaustive enumeration of every span of every short haystack (automata, all APIs, both anchoring modes, prefilter on/off) and of span forms at vector-relevant offsets (packed, prefilters): differential span vs sub-slice vs hostile outside bytes",
    "Every 0<=s<=e<=len and s=e+1 for all haystacks up to the budgeted length; result must equal the sub-slice result shifted, stay inside the span, and be unchanged when all bytes outside the span are replaced by pattern material.",
    "oracle = same searcher on the sub-slice","4, 7"),
